@@ -110,8 +110,9 @@ def _build_lib(variant, log):
                "-DCMAKE_CXX_FLAGS='-Wno-error -w -D%s %s' -DCMAKE_SHARED_LINKER_FLAGS='%s' "
                "-Dtranscoder=icu -Dmessage-loader=inmemory -Dmutex-manager=standard -Dxmlch-type=char16_t"
                % (cenv, REPO, d, bt, GUARD, cxx, ld))
-        rc, out = sh(cmd, timeout=600)
+        rc, out = sh(cmd, timeout=2400)
         if rc != 0:
+            shutil.rmtree(d, ignore_errors=True)   # a half-configured directory must not be reused
             raise RuntimeError("cmake configure failed for %s:\n%s" % (variant, out[-3000:]))
     rc, out = sh("cmake --build %s --target xerces-c -j %d" % (d, NPROC), timeout=3000)
     if rc != 0:
@@ -457,10 +458,13 @@ class Ctx:
         """thorough tier: re-check the compiled property library with the independent checker and record the axioms
         it reports.  modules e.g. ["XV.C05.Properties_C05"]"""
         t0 = time.time()
-        rc, out = sh("timeout %d coqchk -o -silent -Q theories XV %s 2>&1 | tail -40" % (timeout, " ".join(modules)),
+        rc, out = sh("timeout %d coqchk -o -silent -Q theories XV %s 2>&1" % (timeout, " ".join(modules)),
                      cwd=COQ, timeout=timeout + 30)
+        out = "\n".join(out.splitlines()[-60:])
         self.coverage["coqchk"] = {"modules": modules, "rc": rc, "tail": out[-1500:], "wall_s": round(time.time() - t0, 1)}
-        if rc != 0 or "Fatal" in out or "Error" in out:
+        if rc == 124 or "[TIMEOUT" in out:
+            self.note("coqchk did not finish within %ds (recorded, not a verdict)" % timeout)
+        elif rc != 0 or "Fatal" in out or "Error" in out:
             self.violation("coqchk", {"what": "coqchk rejected the compiled library", "output": out[-3000:]}, no_input=True)
         return out
 
